@@ -214,7 +214,7 @@ class RecDisc:
         self.times = []
 
     def rhs(self, f):
-        self.times.append(float(f.time))
+        self.times.append(float(np.ravel(f.time)[0]))
         return self._d.rhs(f)
 
     def __getattr__(self, k):
@@ -244,7 +244,7 @@ def ref_step(disc, f0, dt, tab):
 
 
 def state_key(f):
-    return hash((tuple(d.tobytes() for d in f.data), float(f.time)))
+    return hash((tuple(d.tobytes() for d in f.data), float(np.ravel(f.time)[0])))
 
 
 def conform(iname, mname, rname, bc, idx, dtmode, tab, res=None):
@@ -258,6 +258,11 @@ def conform(iname, mname, rname, bc, idx, dtmode, tab, res=None):
         dtc = np.asarray(disc.calc_timestep(f0, 1.0), float)
     if dtmode == "array":
         dt = 0.4 * dtc
+    elif ":" in dtmode:
+        # the same scalar step written as a numpy scalar, a 0-d array or a one-element array
+        how, x = dtmode.split(":")
+        v = float(x) * float(dtc.min())
+        dt = {"np64": np.float64(v), "0d": np.array(v), "1el": np.array([v])}[how]
     else:
         dt = float(dtmode) * float(dtc.min())
     rec = RecDisc(disc)
@@ -270,6 +275,9 @@ def conform(iname, mname, rname, bc, idx, dtmode, tab, res=None):
         with np.errstate(all="ignore"):
             solver.step(a, dt)
         times = list(rec.times)
+        if np.ndim(a.time) != 0 or np.ndim(cur.time) != 0:
+            out.append((site + "/time-is-a-number", "%s with dt=%r (%s): the field's time is %r after the step (and %r on the field it was copied from)" % (iname, dt, dtmode, a.time, cur.time)))
+            break
         r, ks = ref_step(disc, cur, dt, tab)
         scale = max(np.abs(d).max() for d in cur.data) + float(np.max(dt)) * max(max(np.abs(k).max() for k in kk) for kk in ks)
         if res is not None:
@@ -297,6 +305,7 @@ def conform(iname, mname, rname, bc, idx, dtmode, tab, res=None):
         if not abs(a.time - (cur.time + dmin)) <= 4 * EPS * (abs(cur.time) + dmin):
             out.append((site + "/time-advance", "%s: time %r -> %r with min dt %r" % (iname, cur.time, a.time, dmin)))
             break
+
         # no hidden state: the same step on a fresh solver object is bit-identical
         fresh = cls(m, disc)
         c2 = cur.copy()
@@ -379,7 +388,7 @@ def shard_conf(arg):
     tab = extract(cls)
     n = 3
     for idx in itertools.product(range(4), repeat=n):
-        for dtmode in ("0.1", "0.5", "array"):
+        for dtmode in ("0.1", "0.5", "array") + ((("np64:0.3", "0d:0.3", "1el:0.3")[sum(idx) % 3],) if len(set(idx)) > 1 else ()):
             res.evals += 1
             if len(set(idx)) > 1:
                 res.nontrivial += 1
